@@ -183,7 +183,9 @@ pub fn c05(ctx: &CheckCtx) -> CheckResult {
             ("sync", set, mode.clone()),
             ("sync", if ctx.tier.is_thorough() { "bounded-big" } else { "bounded" }, bounded),
             // the same programs through wait_timeout(_while) / park_timeout / call_once_force
-            ("sync", if ctx.tier.is_thorough() { "thorough-alt" } else { "quick-alt" }, mode),
+            ("sync", if ctx.tier.is_thorough() { "thorough-alt" } else { "quick-alt" }, mode.clone()),
+            // park / unpark around blocking channel operations
+            ("mpsc", "mix", mode),
         ],
         &[VKind::Sound, VKind::Enabled, VKind::Ending, VKind::Abort],
         if ctx.tier.is_thorough() { 1500.0 } else { 50.0 },
@@ -208,6 +210,10 @@ pub fn conformance(ctx: &CheckCtx, fams: &[&str], assumptions: &[&str]) -> Check
     for f in fams {
         if matches!(*f, "sync" | "mpsc") {
             items.push((*f, if ctx.tier.is_thorough() { "thorough-alt" } else { "quick-alt" }, mode.clone()));
+        }
+        // channel operations mixed with park / unpark
+        if *f == "mpsc" {
+            items.push((*f, "mix", mode.clone()));
         }
     }
     // larger programs (the thorough set), all schedules with at most b preemptions: conformance only
